@@ -527,7 +527,7 @@ public:
     {
         clear();
 
-        insert(theCount, theData);
+        insert(begin(), theCount, theData);
     }
 
     size_type
